@@ -4,6 +4,12 @@ import json, os
 HERE = os.path.dirname(os.path.abspath(__file__))
 ALL = ['C%02d' % i for i in range(1, 21)]
 TECH = {
+ 'C01': 'generator monitors on the four real readers (every yielded tree snapshot), sys.monitoring line probe on the bracket automaton locals, independent encoders, exhaustive bracket token-class sweep judged by an independent scanner',
+ 'C02': 'recording stream on every writer call (_begin / tree / _end) decoded by independent format decoders; all 2^11 option subsets + random workload',
+ 'C03': 'black-box monitoring of real `treetools transform` processes (exit status + destination files) against independent encoders/decoders: all 20 format pairs, chains, own-reader idempotence, encodings, gzip, directory mode',
+ 'C09': 'files written by the real grammar writers and by real `treetools grammar` processes decoded by independent PMCFG / RCG / LoPar decoders; RCG additionally through the tool\'s own reader',
+ 'C17': 'runtime contract on parse_split_specification vs integer reference (exhaustive spec x size sweep) + exactly-once/order/framing checker over the part files written by real CLI processes',
+ 'C18': 'offline checker over recorded session logs (same operation => same output at every position and in fresh processes under several hash seeds), additivity checks, global-state snapshots (H6) and audit-hook file log (H5)',
  'C04': 'generic runtime contract (OLD snapshot -> well-formedness, token sequence, constituent accounting) on all twelve structural transformations, driven by sequences from a prerequisite automaton',
  'C10': 'runtime contracts on topdown/inorder/gap + independent replay automata (sentence + transition names only); logical step budget via sys.monitoring; writer and real CLI subprocesses',
  'C11': 'runtime contracts with OLD snapshots on the token-editing transformations and trees.delete_terminal vs reference semantics over the token list; generated terminal files',
@@ -20,6 +26,12 @@ TECH = {
  'C20': 'runtime contracts on parse_label/format_label/get_label; inversion + per-component removal oracles; exhaustive string sweep + structured random labels',
 }
 TEXT = {
+ 'C01': 'every tree the real readers yield for files produced by independent encoders (export v3/v4 with headers, comments, secondary edges, shuffled lines; brackets in three layouts; discobrackets; TIGER-XML with shuffled attributes/nodes) is snapshot, checked well formed and compared with the spec under the documented meaning of the reader options, incl. cross-format agreement of gf_split/replace_parens; the bracket automaton state is probed at every lexer token (all 26 reachable state/class pairs observed) and all token-class sequences up to length 9/11 are judged by an independent scanner. Held on the executions observed.',
+ 'C02': 'the text each writer call emits is decoded by independent decoders and must give back sid, tokens, order, labels, edges and dominance (whatever the format carries) plus the export layout obligations, decorations on exactly the right nodes, defaults for None fields, and refusal/skipping of exactly the discontinuous trees by the bracket writer; every subset of the 11 documented options on small trees, random subsets on random trees, 5 formats. Held on the executions observed.',
+ 'C03': 'about 800 (quick) / 20 000 (thorough) real command-line conversions: every source x destination pair, A->B->A and A->B->C chains, B->B byte-for-byte idempotence with the tool\'s own reader, utf-8/latin-1/utf-16 on both sides, gzip and directory sources; destination decoded independently and compared on the intersection of what both formats carry. Held on the executions observed.',
+ 'C09': 'grammars from an independent reference extraction (raw and binarized in random modes) and synthetic grammars of enumerated canonical rules are written in PMCFG/RCG/LoPar (+-lex_in_grammar, utf-8/latin-1) through API and CLI and decoded independently: rules, linearizations, counts, lexicon, start symbols, open-class files; RCG re-read with the tool\'s reader and used as input of `treetools grammar`; LoPar must refuse non-context-free grammars. Held on the executions observed.',
+ 'C17': 'all specifications of up to 3 (quick) / 4 (thorough) parts over a value grid x sizes 0..25/60, 100, 101, 1000 against exact integer arithmetic incl. rejection of malformed, negative, double-rest and oversized specifications; real split runs in all five formats (with/without filter_by_length): each part decodes, holds exactly its share, concatenation equals the unsplit run, and the tool\'s own reader accepts every part. Held on the executions observed.',
+ 'C18': '160 (quick) / 6 000 (thorough) sessions of 25/40 interleaved operations with repetition: outputs must not depend on position in the session, must equal the output of the single operation in fresh processes (PYTHONHASHSEED 0/1/random; set-like files as sorted multisets), two alternately advanced readers must equal separate reads, A+B results must be the concatenation/sum, no global state other than the node-id counter and the two terminal-file caches may change, and no operation may open another operation\'s files. Held on the executions observed.',
  'C04': 'every call of a structural transformation made while driving 8 000 (quick) / 300 000 (thorough) prerequisite-respecting sequences of up to 5/7 steps, plus every transformation alone on all shapes up to 4/5 tokens, is checked: returned node is a parentless root of a well-formed tree, words/POS unchanged (modulo + concatenation), label multiset as documented per transformation. Held on the executions observed.',
  'C10': 'each emitted sequence is executed by an automaton that knows only the sentence and the transition names and must consume all tokens, end in one item and rebuild the input tree incl. unary nodes, root, labels and head sides; all binary shapes up to 4/5 tokens x head assignments, random trees to 30 tokens, pipeline-produced trees, the plain writer and `treetools transitions` runs. Held on the executions observed.',
  'C11': 'result of every call compared with reference semantics (deleted set, pruning, renumbering, insertion positions, substitution, filter decision, returned root, printed report) on trees with punctuation/traces in hostile positions and terminal files with valid/0/negative/len+1/len+2/duplicate/foreign entries. Held on the executions observed.',
